@@ -3,6 +3,8 @@ package c03
 import (
 	"bytes"
 	"fmt"
+	"github.com/cloudwego/hertz/pkg/app"
+	hserver "github.com/cloudwego/hertz/pkg/app/server"
 	"os"
 	"strings"
 	"testing"
@@ -40,9 +42,63 @@ func server(stream bool, maxBody int) *srv.Echo {
 	if mb == 0 {
 		mb = 8 << 20
 	}
-	s := srv.NewEcho(srv.Config{Stream: stream, MaxBody: mb})
+	s := srv.NewEcho(srv.Config{Stream: stream, MaxBody: mb, Setup: func(h *hserver.Hertz, echo app.HandlerFunc) {
+		// real routes, so that the engine's own redirects (trailing slash, fixed path) are reachable
+		h.GET("/tsr/", echo)
+		h.GET("/tsr2", echo)
+		h.GET("/Fixed/Path", echo)
+	}})
 	servers[k] = s
 	return s
+}
+
+// TestC03Redirects: the engine answers some requests itself, before any handler: a path that only
+// differs by a trailing slash (or by case / extra slashes) from a registered route is redirected, and
+// the Location is built from the peer-controlled X-Forwarded-Prefix header. Whatever that header
+// holds, the answer is one clean response and nothing panics.
+func TestC03Redirects(t *testing.T) {
+	rec := ev.New("redirects")
+	shard, nshards := ev.Shard()
+	leads := []string{"", "/", "a", "../", "//", "a/", "/.", "%2e/"}
+	fills := []string{"p", "/", ".", "/../"}
+	targets := []string{"/tsr", "/tsr2/", "/fixed/path", "/Fixed//Path", "/tsr/x", "/TSR"}
+	var n int64
+	for _, stream := range []bool{false, true} {
+		for _, lead := range leads {
+			for _, fill := range fills {
+				for L := 0; L <= 300; L++ {
+					n++
+					if n%int64(nshards) != int64(shard) {
+						continue
+					}
+					pre := lead
+					for len(pre) < L {
+						pre += fill
+					}
+					if len(pre) > L && L >= len(lead) {
+						pre = pre[:L]
+					}
+					target := targets[int(n)%len(targets)]
+					rec.Case(true, ev.HashString(fmt.Sprint(stream, target), pre), "target-"+target, map[bool]string{true: "prefix-rooted", false: "prefix-relative"}[strings.HasPrefix(pre, "/")])
+					req := "GET " + target + " HTTP/1.1\r\nHost: h\r\nX-Forwarded-Prefix: " + pre + "\r\nConnection: close\r\n\r\n"
+					obs, res, _ := server(stream, 0).Run([][]byte{[]byte(req)}, sconn.EOF)
+					fail := func(f string, a ...interface{}) {
+						msg := fmt.Sprintf("GET %s with X-Forwarded-Prefix of %d bytes %.40q (streaming=%v): ", target, len(pre), pre, stream) + fmt.Sprintf(f, a...)
+						ev.Fail(prop, "redirects", map[string]interface{}{"target": target, "prefix": pre, "streaming": stream}, msg)
+						t.Errorf("%s", msg)
+					}
+					if res.Panic != nil {
+						fail("panic: %v", res.Panic)
+						continue
+					}
+					rs, err := decodeOutput(res.Output, obs)
+					if err != nil || len(rs) != 1 {
+						fail("want exactly one well-formed response, got %d (%v): %s", len(rs), err, srv.Short(res.Output))
+					}
+				}
+			}
+		}
+	}
 }
 
 // decodeOutput finds an assignment of request methods (HEAD or not) under
